@@ -147,6 +147,21 @@ class _Canon(ast.NodeTransformer):
             self.map[node.id] = f"_{len(self.map) + 1}"
         return ast.copy_location(ast.Name(id=self.map[node.id], ctx=node.ctx), node)
 
+    def visit_IfExp(self, node):
+        # positive form: `a if not c else b` == `b if c else a`; `is not`/`!=`/`not in` likewise
+        test, body, orelse = node.test, node.body, node.orelse
+        flipped = False
+        while isinstance(test, ast.UnaryOp) and isinstance(test.op, ast.Not):
+            test, flipped = test.operand, not flipped
+        neg = {ast.IsNot: ast.Is, ast.NotEq: ast.Eq, ast.NotIn: ast.In}
+        if isinstance(test, ast.Compare) and len(test.ops) == 1 and type(test.ops[0]) in neg:
+            test = ast.Compare(left=test.left, ops=[neg[type(test.ops[0])]()], comparators=test.comparators)
+            flipped = not flipped
+        if flipped:
+            body, orelse = orelse, body
+        new = ast.IfExp(test=test, body=body, orelse=orelse)
+        return self.generic_visit(ast.copy_location(new, node))
+
     def visit_ExceptHandler(self, node):
         self.generic_visit(node)
         if node.name and node.name not in self.keep:
